@@ -19,6 +19,7 @@ import (
 	"io"
 	"math/rand/v2"
 	"net"
+	"net/netip"
 	"sync"
 	"sync/atomic"
 	"testing"
@@ -520,6 +521,82 @@ func vfC13StaleAbort(e *vfEnv, r *vfResult, idx int) {
 }
 
 // vfC13TCPMux: handles of one ufrag of the TCP mux share one tcpPacketConn, closed with the last handle.
+// vfC13AbortOwnWrite: what candidateBase.abortIO does to a handle whose write is blocked in the shared socket -
+// abortWrite, then Close - must make that write return, through both I/O flavours of the handle (net.Addr and
+// netip.AddrPort); afterwards the socket is usable for a sibling and its write deadline is cleared.
+func vfC13AbortOwnWrite(e *vfEnv, r *vfResult, idx int) {
+	rng := e.rng(idx, "abortown")
+	sock := newVfMuxSock("10.9.8.8:7000")
+	var under net.PacketConn = sock
+	addrPort := rng.IntN(2) == 0
+	if addrPort {
+		under = vfMuxSockAP{sock}
+	}
+	mux := NewUDPMuxDefault(UDPMuxParams{UDPConn: under, Logger: vfQuietLogger().NewLogger("ice")})
+	defer mux.Close() //nolint:errcheck
+	h, err1 := mux.GetConn("uA", sock.local)
+	sib, err2 := mux.GetConn("uB", sock.local)
+	if err1 != nil || err2 != nil {
+		r.inconclusive(1)
+
+		return
+	}
+	peer := netip.MustParseAddrPort("20.0.0.1:5000")
+	sock.setBlocking(true)
+	res := make(chan error, 1)
+	viaAddrPort := false
+	go func() {
+		if ap, ok := h.(AddrPortReaderWriter); ok && addrPort {
+			viaAddrPort = true
+			_, err := ap.WriteToAddrPort([]byte("x"), peer)
+			res <- err
+
+			return
+		}
+		_, err := h.WriteTo([]byte("x"), net.UDPAddrFromAddrPort(peer))
+		res <- err
+	}()
+	for dl := time.Now().Add(3 * time.Second); sock.blockedW.Load() == 0 && time.Now().Before(dl); time.Sleep(10 * time.Microsecond) {
+	}
+	if sock.blockedW.Load() == 0 {
+		sock.setBlocking(false)
+		<-res
+		r.inconclusive(1)
+
+		return
+	}
+	if ab, ok := h.(writeAborter); ok {
+		_ = ab.abortWrite()
+	}
+	_ = h.Close()
+	r.eval(1)
+	wit := map[string]any{"idx": idx, "addrport_socket": addrPort, "write_via_addrport": viaAddrPort}
+	select {
+	case err := <-res:
+		if err == nil {
+			r.violation("aborted-write-succeeded", "a write blocked in the shared socket returned nil after abortWrite + Close of its handle while the socket was still blocked", wit)
+		}
+	case <-time.After(5 * time.Second):
+		r.violation("aborted-write-still-blocked", fmt.Sprintf("history %d: abortWrite + Close of the handle did not make its own blocked write return (AddrPort socket: %v)", idx, addrPort), wit)
+		sock.setBlocking(false)
+		<-res
+
+		return
+	}
+	sock.setBlocking(false)
+	if _, err := sib.WriteTo([]byte("y"), net.UDPAddrFromAddrPort(peer)); err != nil {
+		r.violation("abort-socket-unusable", fmt.Sprintf("history %d: after the abort a sibling's write failed: %v", idx, err), wit)
+	}
+	sock.mu.Lock()
+	log := append([]time.Time{}, sock.wdl...)
+	sock.mu.Unlock()
+	if len(log) > 0 && !log[len(log)-1].IsZero() {
+		r.violation("abort-deadline-left-armed", fmt.Sprintf("history %d: the last write deadline set on the shared socket is non-zero after all writes returned", idx), wit)
+	}
+	_ = sib.Close()
+	r.distinct(fmt.Sprintf("abortown/ap=%v", addrPort))
+}
+
 func vfC13TCPMux(e *vfEnv, r *vfResult, idx int) {
 	rng := e.rng(idx, "tcprefs")
 	ln, err := net.Listen("tcp", "127.0.0.1:0")
@@ -641,6 +718,9 @@ func TestVerifC13(t *testing.T) {
 		}
 		for i := 0; i < e.n(40, 2000); i++ {
 			vfC13StaleAbort(e, r, i)
+		}
+		for i := 0; i < e.n(200, 8000); i++ {
+			vfC13AbortOwnWrite(e, r, i)
 		}
 	})
 }
